@@ -6,7 +6,7 @@ pairing of the two sides in multiset / keyed edits; R08d lists are compared by t
 """
 import ast
 
-from ..astx import code
+from ..astx import decorator_names, code
 from ..astx import walk_no_nested, dotted, call_name, self_attr, func_params, parent, dominating_conditions, flatten_conditions
 from ..core import norm, Inconclusive
 from .. import pat
@@ -55,6 +55,30 @@ def r08a(ctx):
                                   f"from_dict: its internal order depends on the input's key order")
             if isinstance(c.func, ast.Attribute) and c.func.attr == "from_dict":
                 n += 1
+            # `cls(pairs)` in a classmethod of the family other than from_dict is a construction like any other
+            if isinstance(c.func, ast.Name) and c.func.id == "cls" and f.cls and m.is_subclass(f.cls, DICT) and f.node is not fd.node \
+                    and "classmethod" in decorator_names(f.node):
+                n += 1
+                if not (c.args and isinstance(c.args[0], ast.Call) and call_name(c.args[0]) == "sorted"):
+                    ctx.violation("R08a", f.file, f.short, c, f"direct cls(...) in {f.short}",
+                                  f"`{norm(c, 60)}` in {f.short} constructs a {f.cls.rsplit('.', 1)[-1]} from unsorted pairs - a second from_dict "
+                                  f"without its sort: the internal order of nodes built this way depends on the input's key order")
+            # `template.copy_from(pairs)`: the copying protocol rebuilds a node from the children it is given, in the order given
+            if isinstance(c.func, ast.Attribute) and c.func.attr == "copy_from" and isinstance(c.func.value, ast.Name) and f.node.name not in ("copy", "copy_from"):
+                srcs = [a_.value for a_ in walk_no_nested(f.node) if isinstance(a_, ast.Assign) and len(a_.targets) == 1
+                        and isinstance(a_.targets[0], ast.Name) and a_.targets[0].id == c.func.value.id]
+                fam = False
+                for v_ in srcs:
+                    head = v_.func.value if isinstance(v_, ast.Call) and isinstance(v_.func, ast.Attribute) and v_.func.attr == "from_dict" else \
+                        (v_.func if isinstance(v_, ast.Call) else None)
+                    r_ = m.resolve_expr(f.module, head) if head is not None else None
+                    k_ = r_[0][1] if r_ and r_[0] and r_[0][0] == "class" else None
+                    fam = fam or bool(k_ and k_ in m.classes and m.is_subclass(k_, DICT))
+                if fam:
+                    n += 1
+                    ctx.violation("R08a", f.file, f.short, c, f"copy_from in {f.short}",
+                                  f"`{norm(c, 60)}` fills a DictNode through the copying protocol, which hands the pairs to the constructor in the "
+                                  f"order given instead of through from_dict: the node's internal order depends on the input's key order")
     ctx.floor("R08a", n, 5, "DictNode-family constructions / from_dict calls")
 
 
